@@ -1,9 +1,107 @@
-(** C01: opening and saving a package preserves every reachable part and relationship. *)
+(** C01: opening and saving a package preserves every reachable part and relationship.
+    Statements only; every proof is [exact] of a lemma of proofs/Opc_proofs.v.
+
+    Vocabulary (model/Opc.v): [phys blob] a physical package (member name -> bytes);
+    [env blob] lxml's decode/encode of the two OPC meta documents, parse+serialise of XML
+    payloads ([reser]) and the tables re-extracted from the source tree (gen/GenC01.v);
+    [load] = OpcPackage.open, [save] = OpcPackage.save, [iter_parts] = OpcPackage.iter_parts;
+    [reachable E p x]: the relationship graph of [p] reaches the name [x] from the package
+    root; [wf E p]: well-formed package whose internal relationships all resolve;
+    [codec_ok E]: dec (enc x) = Some x and reser idempotent; [rel_sem]: id, type, mode and
+    resolved target (or external text) of a relationship. *)
 From V.lib Require Import Prelude.
-From V.model Require Import PackUri Opc.
+From V.model Require Import PackUri Opc OpcRun.
 From V.gen Require Import GenC01.
 From V.proofs Require Import Opc_proofs.
+From Coq Require Import Permutation.
 
+(** the translator understood every source construct it read *)
 Theorem C01_no_unmodelled : unmodelled = [].
 Proof. reflexivity. Qed.
 Print Assumptions C01_no_unmodelled.
+
+(** the loaded package holds exactly the parts the relationship graph reaches, each once *)
+Theorem C01_reach : forall blob (E : env blob) (p : phys blob), wf E p ->
+  exists k, load E p = Ok k /\ NoDup (map p_name (iter_parts k)) /\
+    forall x, In x (map p_name (iter_parts k)) <-> (reachable E p x /\ x <> root).
+Proof. exact @c01_reach. Qed.
+Print Assumptions C01_reach.
+
+(** the saved package has exactly these members, each once: the content types item, the
+    package rels item, every reachable part, and the rels item of every reachable part
+    that has relationships *)
+Theorem C01_members : forall blob (E : env blob) (p : phys blob), wf E p ->
+  exists k, load E p = Ok k /\ NoDup (map fst (save E k)) /\
+    forall n, In n (map fst (save E k)) <->
+      (n = ct_uri \/ n = rels_item_name root \/
+       exists x, reachable E p x /\ x <> root /\
+                 (n = x \/ (n = rels_item_name x /\ rels_or_nil E p x <> []))).
+Proof. exact @c01_members. Qed.
+Print Assumptions C01_members.
+
+(** every reachable part keeps its content type and its payload (re-serialised when its
+    type maps to an XML part class, the same bytes otherwise), provided no two parts
+    clash in the default table *)
+Theorem C01_payload_type : forall blob (E : env blob) (p : phys blob),
+  wf E p -> codec_ok E -> env_ok E -> no_default_clash E p ->
+  exists k, load E p = Ok k /\
+    forall q ct b, reachable E p q -> q <> root -> ct_in E p q = Ok ct -> lookup q p = Some b ->
+      ct_in E (save E k) q = Ok ct /\
+      lookup q (save E k) = (if is_xml_ct E ct then reser E b else Some b).
+Proof. exact @c01_payload_type. Qed.
+Print Assumptions C01_payload_type.
+
+(** without that side condition the statement is false on the current tables: two
+    .bin parts typed as PresentationML and SpreadsheetML printer settings; the first one
+    comes back typed as the second *)
+Theorem C01_payload_type_refuted :
+  exists (p : phys wblob) k q ct ct',
+    wf wenv p /\ codec_ok wenv /\ env_ok wenv /\ load wenv p = Ok k /\
+    reachable wenv p q /\ q <> root /\
+    ct_in wenv p q = Ok ct /\ ct_in wenv (save wenv k) q = Ok ct' /\ ct <> ct'.
+Proof. exact payload_type_refuted. Qed.
+Print Assumptions C01_payload_type_refuted.
+
+(** the package and every reachable part keep exactly their relationships: same id, type
+    and mode, resolving to the same part or carrying the same external text *)
+Theorem C01_rels : forall blob (E : env blob) (p : phys blob), wf E p -> codec_ok E ->
+  exists k, load E p = Ok k /\
+    forall src, reachable E p src ->
+      exists rs rs', rels_for E p src = Some rs /\ rels_for E (save E k) src = Some rs' /\
+                     Permutation (map (rel_sem src) rs) (map (rel_sem src) rs').
+Proof. exact @c01_rels. Qed.
+Print Assumptions C01_rels.
+
+(** ---- non-vacuity: a concrete package meeting every hypothesis ---- *)
+
+Example C01_ex_wf : wf wenv ex_deck.
+Proof. exact ex_deck_wf. Qed.
+
+Example C01_ex_codec_ok : codec_ok wenv.
+Proof. exact wenv_codec_ok. Qed.
+
+Example C01_ex_env_ok : env_ok wenv.
+Proof. exact wenv_env_ok. Qed.
+
+Example C01_ex_no_clash : no_default_clash wenv ex_deck.
+Proof. exact ex_deck_no_clash. Qed.
+
+(* its loaded parts in iter_parts order, and the members it is saved with *)
+Example C01_ex_parts :
+  match load wenv ex_deck with
+  | Ok k => map p_name (iter_parts k) = [n_ppt_presentation_xml; n_ppt_slides_slide1_xml; n_ppt_media_image1_png]
+  | Err _ => False
+  end.
+Proof. vm_compute. reflexivity. Qed.
+
+Example C01_ex_saved_members :
+  match load wenv ex_deck with
+  | Ok k => length (save wenv k) = 7%nat /\ has n_docProps_thumbnail_jpeg (save wenv k) = false
+            /\ has n_ppt_slides__rels_slide1_xml_rels (save wenv k) = true
+  | Err _ => False
+  end.
+Proof. vm_compute. repeat split. Qed.
+
+(* the clash package of the refutation is well-formed but violates no_default_clash *)
+Example C01_ex_clash_wf : wfb wenv ex_clash = true /\ no_default_clashb wenv ex_clash = false.
+Proof. vm_compute. split; reflexivity. Qed.
